@@ -108,6 +108,46 @@ pub fn sched() -> &'static Arc<Sched> {
     })
 }
 
+/// Set while a controlled thread is inside scheduler code (queueing for the scheduler's own lock or
+/// waiting on its condition variable also shows as "sleeping in futex" in /proc): such a thread is
+/// never "parked inside std", however long the machine takes to schedule it.
+static IN_SCHED: [std::sync::atomic::AtomicBool; MAX_T] = [const { std::sync::atomic::AtomicBool::new(false) }; MAX_T];
+thread_local! {
+    static SCHED_DEPTH: Cell<u32> = const { Cell::new(0) };
+}
+
+struct InSched(Option<usize>);
+
+fn enter() -> InSched {
+    let me = my_tid().filter(|&t| t < MAX_T);
+    if let Some(t) = me {
+        SCHED_DEPTH.with(|d| {
+            if d.get() == 0 {
+                IN_SCHED[t].store(true, std::sync::atomic::Ordering::SeqCst);
+            }
+            d.set(d.get() + 1);
+        });
+    }
+    InSched(me)
+}
+
+impl Drop for InSched {
+    fn drop(&mut self) {
+        if let Some(t) = self.0 {
+            SCHED_DEPTH.with(|d| {
+                d.set(d.get().saturating_sub(1));
+                if d.get() == 0 {
+                    IN_SCHED[t].store(false, std::sync::atomic::Ordering::SeqCst);
+                }
+            });
+        }
+    }
+}
+
+fn in_sched(i: usize) -> bool {
+    i < MAX_T && IN_SCHED[i].load(std::sync::atomic::Ordering::SeqCst)
+}
+
 fn lock() -> MutexGuard<'static, State> {
     sched().m.lock().unwrap_or_else(|e| e.into_inner())
 }
@@ -155,6 +195,7 @@ pub fn begin(tape: Tape, n: usize) {
 
 /// End the controlled execution; returns the tape and the trace.
 pub fn end() -> (Tape, Vec<(u8, &'static str)>, Vec<usize>, u64, bool) {
+    let _in_sched = enter();
     let mut s = lock();
     s.active = false;
     s.over = true;
@@ -172,20 +213,24 @@ pub fn end() -> (Tape, Vec<(u8, &'static str)>, Vec<usize>, u64, bool) {
 }
 
 pub fn set_monitor(f: Box<dyn FnMut(usize, &'static str) + Send>) {
+    let _in_sched = enter();
     lock().on_step = Some(f);
 }
 
 pub fn set_arrival_monitor(f: Box<dyn FnMut(usize, &'static str) + Send>) {
+    let _in_sched = enter();
     lock().on_arrive = Some(f);
 }
 
 pub fn set_batch(channel: usize, exec: usize) {
+    let _in_sched = enter();
     let mut s = lock();
     s.batch_channel = channel;
     s.batch_exec = exec;
 }
 
 pub fn is_over() -> bool {
+    let _in_sched = enter();
     lock().over
 }
 
@@ -250,7 +295,7 @@ fn freeze(s: &mut State, i: usize) {
     unsafe { libc::syscall(libc::SYS_tgkill, libc::getpid(), s.os_tid[i], libc::SIGUSR2) };
     // the thread must be inside the handler before anybody can wake it up
     let t0 = std::time::Instant::now();
-    while !IN_HANDLER[i].load(SeqCst) && t0.elapsed() < Duration::from_millis(200) {
+    while !IN_HANDLER[i].load(SeqCst) && t0.elapsed() < Duration::from_secs(5) {
         std::thread::sleep(Duration::from_micros(20));
     }
     s.trace.push((i as u8, "held-back"));
@@ -264,7 +309,7 @@ fn thaw(mut s: MutexGuard<'static, State>, i: usize) -> MutexGuard<'static, Stat
     s.trace.push((i as u8, "released"));
     drop(s);
     let t0 = std::time::Instant::now();
-    while IN_HANDLER[i].load(SeqCst) && t0.elapsed() < Duration::from_millis(200) {
+    while IN_HANDLER[i].load(SeqCst) && t0.elapsed() < Duration::from_secs(5) {
         std::thread::sleep(Duration::from_micros(20));
     }
     // give it the time to either go on or park again, then settle
@@ -326,10 +371,10 @@ fn settle(mut s: MutexGuard<'static, State>) -> MutexGuard<'static, State> {
             return s;
         }
         let tids: Vec<i32> = pending.iter().map(|&i| s.os_tid[i]).collect();
-        let first: Vec<bool> = tids.iter().map(|&t| parked_in_futex(t)).collect();
+        let first: Vec<bool> = pending.iter().zip(&tids).map(|(&i, &t)| !in_sched(i) && parked_in_futex(t) && !in_sched(i)).collect();
         drop(s);
         std::thread::sleep(Duration::from_micros(40));
-        let second: Vec<bool> = tids.iter().map(|&t| parked_in_futex(t)).collect();
+        let second: Vec<bool> = pending.iter().zip(&tids).map(|(&i, &t)| !in_sched(i) && parked_in_futex(t) && !in_sched(i)).collect();
         s = lock();
         let all_settled = pending.iter().enumerate().all(|(k, &i)| !matches!(s.threads[i], Status::BlockedStd) || (first[k] && second[k]));
         if all_settled {
@@ -368,15 +413,15 @@ pub fn start_watchdog() {
             }
             (cur, s.os_tid[cur])
         };
-        if !parked_in_futex(tid) {
+        if in_sched(cur) || !parked_in_futex(tid) || in_sched(cur) {
             continue;
         }
         std::thread::sleep(Duration::from_micros(60));
-        if !parked_in_futex(tid) {
+        if in_sched(cur) || !parked_in_futex(tid) || in_sched(cur) {
             continue;
         }
         let mut s = lock();
-        if !s.active || s.over || s.current != cur || !matches!(s.threads[cur], Status::Running) || !s.may_block[cur] {
+        if !s.active || s.over || s.current != cur || !matches!(s.threads[cur], Status::Running) || !s.may_block[cur] || in_sched(cur) {
             continue;
         }
         // the running thread is parked inside std: it gives up the baton
@@ -448,6 +493,7 @@ fn yield_from(s: MutexGuard<'static, State>, me: usize, label: &'static str) {
 
 /// A scheduling point of a controlled thread.
 pub fn point(label: &'static str) {
+    let _in_sched = enter();
     let Some(me) = my_tid() else { return };
     let mut s = lock();
     if !s.active || s.over {
@@ -484,6 +530,7 @@ pub fn point(label: &'static str) {
 
 /// Block the calling controlled thread until `flag` is set by some other thread's step.
 pub fn wait_flag(flag: &Arc<std::sync::atomic::AtomicBool>, label: &'static str) {
+    let _in_sched = enter();
     let Some(me) = my_tid() else { return };
     let mut s = lock();
     if !s.active || s.over {
@@ -495,6 +542,7 @@ pub fn wait_flag(flag: &Arc<std::sync::atomic::AtomicBool>, label: &'static str)
 
 /// The wait seam of the loop thread. Returns the timeout the poller is really asked for.
 pub fn before_wait(fd: i32, timeout: Option<Duration>) -> Option<Duration> {
+    let _in_sched = enter();
     let Some(me) = my_tid() else { return timeout };
     let mut s = lock();
     if !s.active || s.over {
@@ -536,6 +584,7 @@ pub fn spawn<F: FnOnce() + Send + 'static>(tid: usize, f: F) -> std::thread::Joi
     let h = std::thread::spawn(move || {
         TID.with(|t| t.set(Some(tid)));
         {
+            let _in_sched = enter();
             let mut s = lock();
             s.os_tid[tid] = unsafe { libc::gettid() };
             if tid < MAX_T {
@@ -555,6 +604,7 @@ pub fn spawn<F: FnOnce() + Send + 'static>(tid: usize, f: F) -> std::thread::Joi
         finish_thread(tid);
     });
     // wait until the new thread is parked at its start point: the enabled set stays deterministic
+    let _in_sched = enter();
     let mut s = lock();
     while matches!(s.threads[tid], Status::Starting) {
         s = sched().cv.wait(s).unwrap_or_else(|e| e.into_inner());
@@ -563,6 +613,7 @@ pub fn spawn<F: FnOnce() + Send + 'static>(tid: usize, f: F) -> std::thread::Joi
 }
 
 fn finish_thread(me: usize) {
+    let _in_sched = enter();
     let mut s = lock();
     let had_baton = s.current == me && !matches!(s.threads[me], Status::BlockedStd);
     s.threads[me] = Status::Finished;
@@ -595,6 +646,7 @@ fn finish_thread(me: usize) {
 
 /// The loop thread (tid 0) is done with its own program: let the others finish.
 pub fn main_done() {
+    let _in_sched = enter();
     let mut s = lock();
     if !s.active || s.over {
         return;
